@@ -230,6 +230,58 @@ C19d(e) ==
     e.quiescent => \A i \in 1..Len(e.results) : LeftoverMarks(e.results[i].data.trace) = {}
 
 (***************************************************************************)
+(* C11 / C12  stream order (model-free parts).  A stream value is an        *)
+(* executed call state with vt = "stream"; its content is (v, p, s, f);     *)
+(* sn names the stream (generator convention: the function name of a call   *)
+(* that writes to $s ends with "@$s").                                       *)
+(***************************************************************************)
+StreamIdx(tr) == {i \in Indices(tr) : tr[i].k = "exec" /\ tr[i].vt = "stream"}
+Content(s) == <<s.v, s.p, s.s, s.f>>
+UniqueIn(tr, i) == \A j \in StreamIdx(tr) : j # i => Content(tr[j]) # Content(tr[i])
+FindContent(tr, c) == {j \in StreamIdx(tr) : Content(tr[j]) = c}
+
+\* C11 (order): a canon created in this run lists the values in the order of their generations in this
+\* peer's own output
+C11order(pre, e) ==
+    LET p == e.peer  tr == e.out.data.trace
+        canons(t) == {t[i].c : i \in {j \in Indices(t) : t[j].k = "cexec"}}
+        known == canons(pre.store[p].trace) \cup canons(CurData(pre, e.cur).trace)
+        GenOf(el) == LET hits == {j \in StreamIdx(tr) : Content(tr[j]) = <<el.v, el.p, el.s, el.f>>} IN
+                     IF Cardinality(hits) = 1 THEN tr[CHOOSE j \in hits : TRUE].g ELSE -1
+    IN (~Died(e) /\ ReturnsNewData(e.out.code)) =>
+        \A i \in Indices(tr) :
+            (tr[i].k = "cexec" /\ tr[i].c \notin known) =>
+                \A a, b \in 1..Len(tr[i].vals) :
+                    (a < b /\ GenOf(tr[i].vals[a]) >= 0 /\ GenOf(tr[i].vals[b]) >= 0) => GenOf(tr[i].vals[a]) <= GenOf(tr[i].vals[b])
+
+\* C12: between two consecutive data of one peer the stream values keep their relative order; values that are
+\* new to the peer come after the ones it had, values received before values produced in the run.
+\* (scripts that re-scope a stream with `new` reuse the name for different streams: not judged model-free)
+C12(pre, e) ==
+    LET p == e.peer
+        d1 == pre.store[p].trace
+        cu == CurData(pre, e.cur).trace
+        d2 == e.out.data.trace
+        Gen2(c) == d2[CHOOSE j \in FindContent(d2, c) : TRUE].g
+        Has(tr, c) == FindContent(tr, c) # {}
+        okContent(tr, i) == tr[i].sn # "" /\ UniqueIn(tr, i)
+    IN (~Died(e) /\ e.out.code = 0) =>
+        /\ \A x, y \in StreamIdx(d1) :
+              (x # y /\ d1[x].sn = d1[y].sn /\ okContent(d1, x) /\ okContent(d1, y)
+                 /\ Cardinality(FindContent(d2, Content(d1[x]))) = 1 /\ Cardinality(FindContent(d2, Content(d1[y]))) = 1
+                 /\ d1[x].g < d1[y].g)
+              => Gen2(Content(d1[x])) < Gen2(Content(d1[y]))
+        /\ \A x \in StreamIdx(d1) : \A y \in StreamIdx(d2) :
+              (d1[x].sn = d2[y].sn /\ okContent(d1, x) /\ okContent(d2, y) /\ ~Has(d1, Content(d2[y]))
+                 /\ Cardinality(FindContent(d2, Content(d1[x]))) = 1)
+              => Gen2(Content(d1[x])) < d2[y].g
+        /\ \A x, y \in StreamIdx(d2) :
+              (x # y /\ d2[x].sn = d2[y].sn /\ okContent(d2, x) /\ okContent(d2, y)
+                 /\ ~Has(d1, Content(d2[x])) /\ ~Has(d1, Content(d2[y]))
+                 /\ Has(cu, Content(d2[x])) /\ ~Has(cu, Content(d2[y])))
+              => d2[x].g < d2[y].g
+
+(***************************************************************************)
 (* C20  execution is deterministic                                         *)
 (***************************************************************************)
 C20(pre, e) ==
